@@ -14,7 +14,7 @@ import (
 
 func init() {
 	Register("C01", "Decides structural necessary conditions of 'Check() verdict = rule semantics': (cmp) every value validator and compile-time pair check is the right decision table over all orderings and exclusivity flags; (registry) each rule name is wired to the constraint whose Type().String() is that name; (excl) exclusiveMinimum/Maximum are folded into min/max symmetrically; (dispatch) every constraint of a literal is validated, the only short-circuit is nullable+null, and every value-carrying constraint implements a validator interface; (or) an `or` fails iff all alternatives fail; (jsontype) the JSON-type acceptance table; (formats) format validators call the documented stdlib parser. Does NOT decide the composition over arbitrary programs, regex matching or number parsing (C13).",
-		c01cmp, func(c *core.Ctx) { c13predR(c, "C01.num") }, c01registry, c01excl, c01dispatch, c01or, c01formats, decodedRule("C01.decoded"), c01alltypes, c01charlen, c01diamond, checkedValueRule("C01.checkedvalue"), c01uuid, falseRulesRule("C01.falserules"), enumMemberRule("C01.enummember"), func(c *core.Ctx) { c03unquoteAs(c, "C01.unquote") }, func(c *core.Ctx) { c13cmpAs(c, "C01.numcmp") })
+		unnamedNameRule("C01.unnamedname"), c01cmp, func(c *core.Ctx) { c13predR(c, "C01.num") }, c01registry, c01excl, c01dispatch, c01or, c01formats, decodedRule("C01.decoded"), c01alltypes, c01charlen, c01diamond, checkedValueRule("C01.checkedvalue"), c01uuid, falseRulesRule("C01.falserules"), enumMemberRule("C01.enummember"), func(c *core.Ctx) { c03unquoteAs(c, "C01.unquote") }, func(c *core.Ctx) { c13cmpAs(c, "C01.numcmp") })
 }
 
 // decodeStringer returns value -> name of a stringer-generated type.
